@@ -330,14 +330,23 @@ func init() {
 }
 
 func GeneratedFunctions() {
-	p := gen.Profile{Lets: true, Ctl: true, Unknown: true, Conds: 3, Vals: 3, Pres: 2}
+	p := gen.Profile{Lets: true, Ctl: true, Unknown: true, Faults: true, Conds: 3, Vals: 4, Pres: 2}
 	if vrt.Tier() > 0 {
-		p = gen.Profile{Lets: true, Ctl: true, Unknown: true, Shadow: true, Conds: 0, Vals: 0}
+		p = gen.Profile{Lets: true, Ctl: true, Unknown: true, Faults: true, Shadow: true, Assigns: true, Conds: 0, Vals: 0}
 	}
 	g := &gen.G{P: p}
 	ar := 1 + vrt.Choice(2)
 	params := []string{"p", "q"}[:ar]
-	prog := []*gen.Stmt{gen.Fn("f", params, g.FnBody("p", 0))}
+	second := ""
+	if ar == 2 {
+		second = "q"
+	}
+	var prog []*gen.Stmt
+	if vrt.Choice(2) == 1 {
+		// outer variables named like the parameters
+		prog = append(prog, gen.Let("p", gen.Lit(9)), gen.Let("q", gen.Lit(8)))
+	}
+	prog = append(prog, gen.Fn("f", params, g.FnBody("p", 0, second)))
 	callAs := func(name string, a *gen.Expr) *gen.Expr {
 		if ar == 1 {
 			return gen.Call(name, a)
@@ -346,15 +355,18 @@ func GeneratedFunctions() {
 	}
 	call := func(a *gen.Expr) *gen.Expr { return callAs("f", a) }
 	x := gen.Var("x")
-	switch vrt.Choice(9) {
+	yn := func(c *gen.Expr) *gen.Stmt {
+		return gen.IfElse(true, c, []*gen.Stmt{gen.Text("Y")}, []*gen.Stmt{gen.Text("N")})
+	}
+	switch vrt.Choice(10) {
 	case 0:
 		prog = append(prog, gen.Out(call(x)))
 	case 1:
-		prog = append(prog, gen.Out(call(call(x)))) // the value passed on
+		prog = append(prog, gen.Out(call(call(x)))) // the value passed on; calls nested in both arguments
 	case 2:
 		prog = append(prog, gen.Let("v", call(x)), gen.Out(gen.Var("v")), gen.Out(gen.Add(gen.Var("v"), gen.Lit(1))))
 	case 3:
-		prog = append(prog, gen.IfElse(true, gen.Eq(call(x), gen.Var("t")), []*gen.Stmt{gen.Text("Y")}, []*gen.Stmt{gen.Text("N")}))
+		prog = append(prog, yn(gen.Eq(call(x), gen.Var("t"))))
 	case 4:
 		prog = append(prog, gen.Out(gen.Add(call(x), call(gen.Lit(2))))) // two calls in one expression
 	case 5:
@@ -362,7 +374,10 @@ func GeneratedFunctions() {
 	case 6:
 		prog = append(prog, gen.Out(call(gen.Nil()))) // nil argument
 	case 7:
-		prog = append(prog, gen.IfElse(true, call(gen.Var("u")), []*gen.Stmt{gen.Text("Y")}, []*gen.Stmt{gen.Text("N")}), gen.Out(x)) // failing argument in a tolerant position
+		prog = append(prog, yn(call(gen.Var("u"))), gen.Out(x)) // failing argument in a tolerant position
+	case 8:
+		// the call as a condition (a failing body is tolerated or fails the render), then the caller's names are read
+		prog = append(prog, yn(call(x)), yn(gen.Var("p")), gen.Out(x))
 	default:
 		prog = append(prog, gen.Let("g", gen.Var("f")), gen.Out(callAs("g", x))) // first class
 	}
